@@ -57,7 +57,7 @@ Proof.
       lazy beta iota zeta delta [bpch_fz bpch_jac bpch_fz_hag bpch_jac_hag nthR nth upd Nat.mul Nat.add Rpower];
       fold la mu2;
       auto_derive; unfold Rminus, Rdiv; fold sb; fold q; fold sa; fold qa; fold rr;
-      [ pos_side | unfold rr; field; repeat split; first [ pos1 | timeout 20 nra ] ])).
+      [ pos_side_nra | unfold rr; field; pos_side_nra ])).
 Qed.
 (* elastic loading: fzeros = zeros - (deto, 0, ..), jacobian = identity; no hypothesis *)
 Lemma bpch_ejac_ok eel0 eel1 eel2 deto0 deto1 deto2 khr_a_00 khr_a_01 khr_a_02 p dt epsilon theta young nu rv ihr_R0_ ihr_H_ khr_C_0 khr_D_0 khr_m_0 khr_w_0 z0 z1 z2 z3 z4 z5 z6 :
